@@ -52,6 +52,15 @@ CLAIMED = {
   "text": "Contracts on the real text of build_prove_request_content, build_prove_request_content_from_genesis (mod.rs) and multiply, FlyClientPDF::{new, random_sample, sampling}, estimate_samples_count, sample_blocks (sampling.rs): a request is built iff the start is strictly below the last block in number and not above it in total difficulty; the built request names that start (or, when at most last-N blocks are missing, a remembered last-N header strictly below it that is still within last-N of the last block), asks for no samples and boundary = start difficulty in that case, and otherwise carries a boundary with start < boundary <= last and strictly increasing (hence unique) sampled difficulties below the boundary; multiply equals max(1, floor(u * num / 10^9)) without U512 overflow.",
   "note": "Floats are uninterpreted (Verus has no f64 theory): the sample-count bound is NOT decided. Known finding S7 (sample == start for an empty interval) listed in known_findings.txt.",
   "ref": "DESIGN.md 5-C15"},
+
+ "C16": {
+  "text": "Partial: contracts on the real text of TransactionRpcImpl::{fetch_transaction, get_transaction} and ChainRpcImpl::fetch_header (service.rs): the reported status is exactly the function of (stored?, fetch-table entry) the property states (fetched / not_found+re-add / fetching{first_sent} / added{ts}), an existing added or in-flight entry is never reset by a call (gate on add_fetch_*), committed is reported iff the store has the transaction and then with the hash of the header the store returns for it; together with the fetch_gate gates (not_found only after a verified matching response).",
+  "note": "Peers' fetch-table maintenance on timeout/disconnect and the store writers behind get_transaction_with_header are not under contract.",
+  "ref": "DESIGN.md 5-C16"},
+ "C18": {
+  "text": "Partial: contracts on the real text of send_transaction, estimate_cycles, get_transaction (pending branch) and PendingTxs::{new, push, get}: a transaction enters the pending pool only with the evidence that verify_tx accepted exactly it with exactly those cycles; estimate_cycles reports those cycles; the pool never exceeds its limit, the newest entry is the pushed transaction with an empty announced-peer set and the oldest entry is the one evicted.",
+  "note": "The verifiers themselves are dependency code; the once-per-peer broadcast function is outside the Verus subset and not covered.",
+  "ref": "DESIGN.md 5-C18"},
 }
 
 NOT_APPLICABLE = {
